@@ -46,7 +46,90 @@ CLAIMED = {
          "Red-zone sanitizers miss non-adjacent and intra-object overflows; only executed paths are judged; allocation failure is "
          "modelled as NULL returns of malloc/calloc/realloc.",
          "ASan/UBSan boundary sweep + exhaustive allocation-failure injection per recorded call + cross-property sampler", "DESIGN.md §3 C08"),
+ "C02": ("exploration",
+         "Differential monitor: every fp_* arithmetic entry point and every named algorithm variant (add/sub/neg/dbl/hlv, mul/sqr basic/comba/integ/karat, "
+         "reductions, seven inversions + simultaneous, five Legendre symbols, three exponentiations, square/cube roots, conversions) on all primes selectable in "
+         "the 256-bit (6), 255-bit and 381-bit builds and an alternative-dispatch build; results compared with Python integers mod p AND required canonical "
+         "(raw digits < p, read from memory); variants must agree; roots iff Euler criterion; inv(0) errors; residues include values whose Montgomery image is "
+         "0/1/all-ones/zero digits.", "Trusts CPython integers; primes of other sizes only in the thorough sweep.",
+         "runtime differential monitor vs Python ints mod p + canonical-form monitor + ASan/UBSan", "DESIGN.md §3 C02"),
+ "C03": ("exploration",
+         "Differential monitor over an affine integer model of the curve group: group law in affine/projective/Jacobian coordinates with raw mixed-coordinate, "
+         "aliased and exceptional operands; every ep_mul_*, ep_mul_pre/fix_* and ep_mul_sim_* routine against [k]P for hostile scalars (0, +-1, n-1, n, n+1, kn, "
+         "negative, longer than n up to the bignum precision, GLV boundary values) on all nine curves of the 256/255/381-bit builds. Fixed verdict policy: in-range "
+         "scalars must give [k]P; out-of-range scalars may raise an error but never return a wrong point.",
+         "Trusts the affine integer model; multiplications run under the configured EP_ADD=PROJC only.",
+         "runtime differential monitor vs affine curve model + ASan/UBSan", "DESIGN.md §3 C03"),
+ "C04": ("exploration",
+         "Relational monitor with independent arithmetic: [a]P and [b]Q are computed by Python curve models and written raw into the library, the library's e(P,Q) is "
+         "raised to ab by a generic tower model, and e([a]P,[b]Q) must equal it; plus non-degeneracy, order r, identity slots, multi-pairing = product, all three "
+         "pairing variants, on BN_P256, SM9_P256 and B12_P381.", "Trusts the tower/curve models (validated against the library's measured non-residues).",
+         "runtime relational monitor (bilinearity with model-side exponentiation) + ASan/UBSan", "DESIGN.md §3 C04"),
+ "C05": ("exploration",
+         "Completeness, independent verdicts and mutation soundness for the signature schemes: honest signatures verify; ECDSA and RSA verdicts equal an independent "
+         "Python implementation of FIPS 186-4 / PKCS#1 on arbitrary (r,s,Q,msg) / (sig,msg) incl. out-of-range and malformed encodings; every single-bit flip and "
+         "component substitution of message/signature/key must be rejected unless the scheme's defining equation (evaluated by the harness from lower-layer "
+         "primitives) holds.", "Scheme oracles use lower-layer library primitives monitored by C03/C04/C13; RSA keys are 1024 bit in the quick tier.",
+         "runtime monitor: independent verifier + mutation soundness + ASan/UBSan", "DESIGN.md §3 C05"),
+ "C06": ("exploration",
+         "Round-trip, homomorphism, agreement and rejection monitors for the encryption / key agreement / sharing protocols, with independent Python oracles for RSA "
+         "paddings, Paillier/Benaloh arithmetic, ECDH/ECMQV keys (curve + KDF models), Shamir reconstruction and PSI outputs; every byte mutation of authenticated "
+         "ciphertexts must be rejected.", "Oracles use lower-layer primitives monitored elsewhere; key sizes are small in the quick tier.",
+         "runtime monitor: round trips vs independent protocol models + ciphertext mutation + ASan/UBSan", "DESIGN.md §3 C06"),
+ "C07": ("exploration",
+         "Structure-aware decoder fuzzing against a Python decoder per format: for arbitrary byte strings library accepts iff model accepts, accepted objects are valid "
+         "and re-encode to the input; for valid objects decode(encode(x)) = x, length = size_bin, short buffers raise errors without overflow; radix 2..64 strings; "
+         "integers, Fp..Fp12, prime/extension/binary/Edwards curve points, G1/G2/GT on twelve parameter sets.",
+         "Does not demand more than documented (no subgroup check in ep_read_bin, no cyclotomic check in gt_read_bin).",
+         "runtime differential monitor vs model decoders/encoders + ASan/UBSan", "DESIGN.md §3 C07"),
+ "C09": ("exploration",
+         "Differential monitor for modular reduction (all algorithms), exponentiation (all, sim, CRT), inverses, gcd/extended gcd (Bezout for the given operands), lcm, "
+         "symbols, roots, interpolation, primality (Carmichael numbers, strong pseudoprimes, constructed composites) and prime generation, and every recoding decoded by "
+         "the model with digit-set/length/sparsity contracts, on 64-bit, 8-bit and alternative-dispatch builds.", "Trusts Python pow/gcd/isqrt and a BPSW-style model primality test.",
+         "runtime differential monitor vs Python number theory + recoding decoders + ASan/UBSan", "DESIGN.md §3 C09"),
+ "C10": ("exploration",
+         "Differential monitor against generic schoolbook polynomial arithmetic in towers built from the library's MEASURED defining polynomials: every operation and "
+         "specialised form (lazy/unreduced, sparse, cyclotomic/compressed squarings, cyclotomic exponentiation/inversion, simultaneous inversion, Frobenius powers, roots) "
+         "of every built degree on BN_P256, SM9_P256, B12_P381 and the other 256-bit primes.", "Trusts the generic tower model; towers above 12 only where the prime admits them.",
+         "runtime differential monitor vs generic tower model + canonical-form monitor + ASan/UBSan", "DESIGN.md §3 C10"),
+ "C11": ("exploration",
+         "As C03 over Fp2: ep2 group law with raw mixed-coordinate inputs, every ep2_mul*/fix/sim routine, ep2_frb = [p] on the subgroup, ep2_mul_cof annihilated by r for "
+         "model-constructed points outside the subgroup, on BN_P256, SM9_P256, B12_P381.", "Trusts the Fp2 curve model; ep3/ep4/ep8 are not exercised (no curve at these sizes).",
+         "runtime differential monitor vs affine twist model + ASan/UBSan", "DESIGN.md §3 C11"),
+ "C12": ("exploration",
+         "Membership predicates of G1/G2/GT against the model's truth on members, model-constructed non-members (random curve/twist points, small-order points, off-curve "
+         "coordinates, cyclotomic-but-not-order-r elements, 0, 1, -1) and group exponentiations in plain/secure/fixed/simultaneous forms against repeated operation.",
+         "Trusts curve/tower models.", "runtime differential monitor vs model membership truth + ASan/UBSan", "DESIGN.md §3 C12"),
+ "C13": ("exploration",
+         "Hash-to-group monitor: output on curve, non-trivial and annihilated by r (model), deterministic across calls / parameter churn / fresh contexts, and bit-for-bit "
+         "equal to a Python evaluation of the documented construction (expand_message_xmd, SSWU with isogeny, SvdW, SwiftEC, try-and-increment, sign, cofactor) on all "
+         "prime curves; ep2/eb maps get the first two oracles; ed_map equals an RFC 9380 edwards25519 model.", "Implementation constants (DST, L, sgn0 rule) taken from the source once.",
+         "runtime differential monitor vs independent hash-to-curve model + ASan/UBSan", "DESIGN.md §3 C13"),
+ "C14": ("exploration",
+         "Differential monitor vs hashlib/hmac and hand-written KDF2/MGF1/XMD/AES-CBC models (self-tested on FIPS-197, SP 800-38A, RFC 9380, RFC 4231 vectors): every message "
+         "length 0..300 and long ones, key lengths around the block size, every output length, every single-byte corruption of the last ciphertext block.",
+         "Trusts hashlib and the self-tested models.", "runtime differential monitor vs standard implementations + ASan/UBSan", "DESIGN.md §3 C14"),
+ "C15": ("exploration",
+         "Lock-step history monitor: a Python Hash_DRBG (SP 800-90A, SHA-256) is advanced with the library over random histories of generate/reseed/instantiate; output bytes "
+         "AND internal state (V, C, reseed counter, read from the context) must match after every call, incl. long histories across 2^8/2^15/2^16 generates; integer sampling "
+         "in range and equal to the model's use of the stream.", "Model validated on the CAVS vectors embedded in test_rand.c.",
+         "online trace monitor vs executable DRBG model (output + hidden state) + ASan/UBSan", "DESIGN.md §3 C15"),
+ "C16": ("exploration",
+         "Differential monitor vs a GF(2^m) model and an affine binary-curve model: every fb_* variant, fb2, eb group law with exceptional cases, halving, Frobenius, every eb_mul* "
+         "/fix/sim routine on NIST_B283 and NIST_K283.", "Trusts the GF(2^m)/curve models; halving judged on the odd-order subgroup only.",
+         "runtime differential monitor vs GF(2^m) and binary-curve models + ASan/UBSan", "DESIGN.md §3 C16"),
+ "C17": ("exploration",
+         "Differential monitor vs the complete twisted-Edwards affine law on Python integers (255-bit build): add/dbl/neg in affine/projective/extended coordinates for all operands "
+         "incl. points of order 1,2,4,8, every ed_mul*/fix/sim routine, compression round trips, ed_map in the subgroup.", "Trusts the affine Edwards model.",
+         "runtime differential monitor vs affine Edwards model + ASan/UBSan", "DESIGN.md §3 C17"),
+ "C18": ("exploration",
+         "Exhaustive enumeration of the parameter identifiers accepted by each built configuration (fp, fb, ep, eb, ed in the 256/255/381-bit builds; more sizes thorough): "
+         "each set is read through the public getters and ~20 mathematical obligations are checked in Python (primality, irreducibility, generator on curve, prime order "
+         "annihilates it, Hasse bound, endomorphism and lattice constants, twist type/generator/order/Frobenius constants, embedding degree, level, Montgomery and map constants).",
+         "Exhaustive over identifiers, not over anything else; probabilistic primality in the model.",
+         "runtime enumeration of all built parameter sets checked against mathematical obligations", "DESIGN.md §3 C18"),
 }
+READY = {"C01", "C08", "C19", "C20"}
 NOT_YET = {}
 
 def main():
@@ -54,7 +137,7 @@ def main():
     na = []
     for p in props:
         pid = p["id"]
-        if pid in CLAIMED:
+        if pid in CLAIMED and pid in READY:
             cat, text, note, tech, ref = CLAIMED[pid]
             checks.append({
                 "property_id": pid,
